@@ -259,6 +259,22 @@ impl<'d> serde::ser::Serializer for Serializer<'d> {
         )
     }
 
+    fn serialize_i128(self, v: i128) -> Result<Self::Ok, Self::Error> {
+        write_document(
+            self.dst,
+            self.settings,
+            toml_edit::ser::ValueSerializer::new().serialize_i128(v),
+        )
+    }
+
+    fn serialize_u128(self, v: u128) -> Result<Self::Ok, Self::Error> {
+        write_document(
+            self.dst,
+            self.settings,
+            toml_edit::ser::ValueSerializer::new().serialize_u128(v),
+        )
+    }
+
     fn serialize_f32(self, v: f32) -> Result<Self::Ok, Self::Error> {
         write_document(
             self.dst,
@@ -574,6 +590,20 @@ impl<'d> serde::ser::Serializer for ValueSerializer<'d> {
         write_value(
             self.dst,
             toml_edit::ser::ValueSerializer::new().serialize_u64(v),
+        )
+    }
+
+    fn serialize_i128(self, v: i128) -> Result<Self::Ok, Self::Error> {
+        write_value(
+            self.dst,
+            toml_edit::ser::ValueSerializer::new().serialize_i128(v),
+        )
+    }
+
+    fn serialize_u128(self, v: u128) -> Result<Self::Ok, Self::Error> {
+        write_value(
+            self.dst,
+            toml_edit::ser::ValueSerializer::new().serialize_u128(v),
         )
     }
 
